@@ -709,14 +709,15 @@ def case_downstream(case):
                if msg else None)]
 
 
-def case_run(function):
+def case_run(case):
     """(5): cli.run.simulation hands the parsed dictionaries verbatim to
     Simulation(...), survey.select(...), compute(observed=True, **noise)."""
+    function, datasel = case
     E = shadow.load()
     c = set_ctx(Ctx(timeout_ms=30000))
     State.OBJECT_ALLOC = True
     R = E.cli.run
-    grp = f"run.simulation function={function}"
+    grp = f"run.simulation function={function} [data]={datasel}"
     calls = []
 
     class FakeSurvey:
@@ -760,7 +761,7 @@ def case_run(function):
            'simulation_options': {'name': 'n', 'max_workers': 3,
                                   'solver_opts': {'tol': 1e-4},
                                   'gridding_opts': {'center': [0, 0, 0]}},
-           'data': {'sources': ['a'], 'remove_empty': True},
+           'data': dict(datasel),
            'noise_kwargs': {'min_offset': 5.0, 'add_noise': False}}
     term = dict(function=function, verbosity=0, dry_run=False, clean=False,
                 config_file='.')
@@ -795,9 +796,15 @@ def case_run(function):
     if simkw != want:
         bad = f"Simulation(...) receives {simkw}, configured {want}"
     sel = d.get('select')
-    if sel != dict(sources=['a'], receivers=None, frequencies=None,
-                   remove_empty=True):
-        bad = bad or f"survey.select receives {sel}"
+    wants = dict(sources=datasel.get('sources'),
+                 receivers=datasel.get('receivers'),
+                 frequencies=datasel.get('frequencies'),
+                 remove_empty=datasel.get('remove_empty', False))
+    if datasel and sel != wants:
+        bad = bad or (f"survey.select receives {sel} for [data] = "
+                      f"{datasel}")
+    if not datasel and sel is not None:
+        bad = bad or "survey.select called without a [data] section"
     comp = d.get('compute')
     wantc = dict(observed=True, **cfg['noise_kwargs']) \
         if function == 'forward' else {}
@@ -1197,7 +1204,10 @@ def main(tier):
     jobs += [('case_downstream', x) for x in keys if x[0] != 'files']
     jobs += [('case_unknown', s) for s in docs]
     jobs += [('case_precedence', 'options'), ('case_precedence', 'files')]
-    jobs += [('case_run', f) for f in ('forward', 'misfit', 'gradient')]
+    jobs += [('case_run', (f, d_)) for f in ('forward', 'misfit',
+                                              'gradient')
+             for d_ in ({'sources': ['a'], 'remove_empty': True},
+                        {'remove_empty': True}, {'receivers': ['r']}, {})]
     jobs += [('case_run_load', (f, g)) for f in ('forward', 'misfit',
                                                   'gradient')
              for g in (True, False)]
